@@ -32,8 +32,8 @@ GAMMAS = [1.0, 0.5, -2.0]
 
 def bounds(tier):
     if tier == "quick":
-        return {"N": {2: [8, 9, 12], 3: [6, 7]}, "L": LS, "modes": [1, 2, 3], "gamma": GAMMAS, "nu_drag": PARS, "orders": [1, 2, 3, 4], "dt": [0.1, 1.0], "steps": 4, "thin": 5}
-    return {"N": {2: [8, 9, 10, 11, 12, 13], 3: [6, 7, 8, 9]}, "L": LS, "modes": [1, 2, 3], "gamma": GAMMAS, "nu_drag": PARS, "orders": [1, 2, 3, 4],
+        return {"N": {2: [7, 8, 9, 12], 3: [6, 7]}, "L": LS, "modes": [1, 2, 3], "gamma": GAMMAS, "nu_drag": PARS, "orders": [1, 2, 3, 4], "dt": [0.1, 1.0], "steps": 4, "thin": 5}
+    return {"N": {2: [7, 8, 9, 10, 11, 12, 13], 3: [6, 7, 8, 9]}, "L": LS, "modes": [1, 2, 3], "gamma": GAMMAS, "nu_drag": PARS, "orders": [1, 2, 3, 4],
             "dt": [0.1, 1.0, 10.0], "steps": 4}
 
 
@@ -78,7 +78,7 @@ def unit_kolmogorov(u, rec):
     if thin > 1:  # deterministic thinning of the product (stated in bounds): every value of every dimension still occurs with every order
         combos = [c for i, c in enumerate(combos) if i % thin == 0]
     for ci, (k, gamma, (nu, drag), order, dt) in enumerate(combos):
-        if k >= (N - 1) // 2:
+        if k > (N - 1) // 2:  # up to and including the highest Nyquist-free mode ((N-1)/2 on odd grids, N/2-1 on even ones)
             continue
         kap = 2 * np.pi * k / L
         bconv = (1.0, 2.0, -1.5)[ci % 3]  # the convection scale must not touch the forcing (the laminar state has no convection)
